@@ -129,6 +129,10 @@ def initDim (t : Ty) {n : Nat} (f : Fin n → Int × Int) : M (Box n) :=
   let results := Vector.ofFn f
   mkPosSize t (Vector.ofFn fun i => results[i].1) (Vector.ofFn fun i => results[i].2)
 
+/-- the calls of `_function` made by `init_max` / `init_dim`: `array::init` evaluates it exactly once per index, in index
+    order, before any of the two vectors is built -/
+def initTrace (n : Nat) : List Nat := (List.finRange n).map (·.val)
+
 /-- `null<Box>()`: `Box(vector::null, dim::null)` -/
 def null (t : Ty) (n : Nat) : M (Box n) := mkPosSize t (vzero n) (vzero n)
 
@@ -231,5 +235,153 @@ def lt (t : Ty) {n : Nat} (a b : Box n) : M Bool := do
   let sa ← size t a
   let sb ← size t b
   pure (vecLt a.min b.min || (!vecLt b.min a.min && vecLt sa sb))
+
+/-! ## extension round: mutable accessors, neighbouring functions, register machine
+
+| definition                     | mirrors                                                                  |
+|--------------------------------|--------------------------------------------------------------------------|
+| `setPos`, `setMax`             | assignment through the non-const `pos()` / `max()` (they return `min_` / `max_` by reference) |
+| `halfV`, `stretchRelative`     | `box/stretch_relative.hpp` (`dim = size * to_dim(factors)`; `Box(center - (dim / 2).get_unsafe(), dim)`) |
+| `Ty.wrap`, `structureCast`     | `box/structure_cast.hpp` with a converter that is a `static_cast` (`static_cast_fun`, `size_fun`, `to_signed_fun`, `to_unsigned_fun`): `Dest(cast(pos), cast(size()))` |
+| `showOut`, `output`            | `box/output.hpp`, `math/detail/one_dimensional_output.hpp`: `((x,y),(w,h))` |
+| `Instr`, `St`, `step`, `run`   | sequences of statements on two box objects `A`, `B` and a vector `V` (assignments through the mutable accessors, aliasing, copies, swaps, `A = f(A, …)`) |
+| `foldPoints`, `foldBoxes`, `foldIntersection` | `b = extend_bounding_box(b, p)` / `a = extend_bounding_box(a, b)` / `a = intersection(a, b)` in a loop |
+-/
+
+/-- `b.pos() = v` -/
+def setPos {n : Nat} (b : Box n) (v : Vec n) : Box n := ⟨v, b.max⟩
+/-- `b.max() = v` -/
+def setMax {n : Nat} (b : Box n) (v : Vec n) : Box n := ⟨b.min, v⟩
+
+/-- `(v / 2).get_unsafe()` -/
+def halfV (t : Ty) {n : Nat} (v : Vec n) : M (Vec n) :=
+  seqFn (n := n) fun i => do
+    match ← t.div v[i] 2 with
+    | some q => pure q
+    | none => throw .emptyDeref
+
+/-- `stretch_relative(box, factors)` -/
+def stretchRelative (t : Ty) {n : Nat} (b : Box n) (f : Vec n) : M (Box n) := do
+  let s ← size t b
+  let d ← t.normV (vmul s f)
+  let c ← center t b
+  let half ← halfV t d
+  let p ← t.normV (vsub c half)
+  mkPosSize t p d
+
+/-- `static_cast<Dest>(x)` between integer types (C++20: modular in both directions) -/
+def Ty.wrap (t : Ty) (x : Int) : Int :=
+  if t.signed then (x + 2 ^ (t.bits - 1)) % 2 ^ t.bits - 2 ^ (t.bits - 1) else x % 2 ^ t.bits
+
+/-- `structure_cast<Dest, Conv>(src)`: `Dest(vector::structure_cast(src.pos()), dim::structure_cast(src.size()))` -/
+def structureCast (src dst : Ty) {n : Nat} (b : Box n) : M (Box n) := do
+  let s ← size src b
+  mkPosSize dst (b.min.map dst.wrap) (s.map dst.wrap)
+
+/-- `operator<<` of a vector / dim: `(a_1,…,a_n)` -/
+def showOut {n : Nat} (v : Vec n) : String := "(" ++ ",".intercalate (v.toList.map toString) ++ ")"
+
+/-- `operator<<` of a box: `(position,size)` -/
+def output (t : Ty) {n : Nat} (b : Box n) : M String := do
+  let s ← size t b
+  pure ("(" ++ showOut b.min ++ "," ++ showOut s ++ ")")
+
+/-- One C++ statement on the objects `box A, B; vector V`. -/
+inductive Instr where
+  | pv   -- A.pos() = V
+  | mv   -- A.max() = V
+  | pm   -- A.pos() = A.max()
+  | mp   -- A.max() = A.pos()
+  | pb   -- A.pos() = B.pos()
+  | mb   -- A.max() = B.max()
+  | pbm  -- A.pos() = B.max()
+  | sw   -- std::swap(A, B)
+  | ss   -- std::swap(A, A)
+  | sc   -- std::swap(A.pos(), A.max())
+  | cp   -- A = B
+  | sa   -- A = A
+  | mo   -- A = std::move(B)   (B keeps its value: the storage is an array of T)
+  | sm   -- A = std::move(A)
+  | xi   -- A = intersection(A, B)
+  | xb   -- A = extend_bounding_box(A, B)
+  | xv   -- A = extend_bounding_box(A, V)
+  | xm   -- A = extend_bounding_box(A, A.max())
+  | sh   -- A = shrink(A, V)
+  | st   -- A = stretch_absolute(A, V)
+  | shp  -- A = shrink(A, A.pos())
+  | stm  -- A = stretch_absolute(A, A.max())
+  | ni   -- box N{no_init}; N.pos() = A.pos(); N.max() = A.max(); A = N
+  | ps   -- A = box(A.pos(), A.size())
+  | ce   -- A.pos() = center(A)
+  | px   -- at<0>(A.pos()) = at<0>(V)      (N ≥ 1)
+  | vp   -- V = A.pos()
+  | vm   -- V = A.max()
+  | xa   -- A = intersection(A, A)
+  | xe   -- A = extend_bounding_box(A, A)
+  deriving DecidableEq, Repr
+
+def Instr.all : List Instr :=
+  [.pv, .mv, .pm, .mp, .pb, .mb, .pbm, .sw, .ss, .sc, .cp, .sa, .mo, .sm, .xi, .xb, .xv, .xm, .sh, .st, .shp, .stm,
+   .ni, .ps, .ce, .px, .vp, .vm, .xa, .xe]
+
+def Instr.code : Instr → String
+  | .pv => "pv" | .mv => "mv" | .pm => "pm" | .mp => "mp" | .pb => "pb" | .mb => "mb" | .pbm => "pbm"
+  | .sw => "sw" | .ss => "ss" | .sc => "sc" | .cp => "cp" | .sa => "sa" | .mo => "mo" | .sm => "sm"
+  | .xi => "xi" | .xb => "xb" | .xv => "xv" | .xm => "xm" | .sh => "sh" | .st => "st" | .shp => "shp" | .stm => "stm"
+  | .ni => "ni" | .ps => "ps" | .ce => "ce" | .px => "px" | .vp => "vp" | .vm => "vm" | .xa => "xa" | .xe => "xe"
+
+structure St (n : Nat) where
+  a : Box n
+  b : Box n
+  v : Vec n
+  deriving DecidableEq, Repr
+
+def step (t : Ty) {n : Nat} (s : St n) : Instr → M (St n)
+  | .pv => pure { s with a := setPos s.a s.v }
+  | .mv => pure { s with a := setMax s.a s.v }
+  | .pm => pure { s with a := setPos s.a s.a.max }
+  | .mp => pure { s with a := setMax s.a s.a.min }
+  | .pb => pure { s with a := setPos s.a s.b.min }
+  | .mb => pure { s with a := setMax s.a s.b.max }
+  | .pbm => pure { s with a := setPos s.a s.b.max }
+  | .sw => pure { s with a := s.b, b := s.a }
+  | .ss => pure s
+  | .sc => pure { s with a := ⟨s.a.max, s.a.min⟩ }
+  | .cp => pure { s with a := s.b }
+  | .sa => pure s
+  | .mo => pure { s with a := s.b }
+  | .sm => pure s
+  | .xi => do let r ← intersection t s.a s.b; pure { s with a := r }
+  | .xb => pure { s with a := extendBox s.a s.b }
+  | .xv => pure { s with a := extendPoint s.a s.v }
+  | .xm => pure { s with a := extendPoint s.a s.a.max }
+  | .sh => do let r ← shrink t s.a s.v; pure { s with a := r }
+  | .st => do let r ← stretchAbsolute t s.a s.v; pure { s with a := r }
+  | .shp => do let r ← shrink t s.a s.a.min; pure { s with a := r }
+  | .stm => do let r ← stretchAbsolute t s.a s.a.max; pure { s with a := r }
+  | .ni => pure { s with a := setMax (setPos s.a s.a.min) s.a.max }
+  | .ps => do let sz ← size t s.a; let r ← mkPosSize t s.a.min sz; pure { s with a := r }
+  | .ce => do let c ← center t s.a; pure { s with a := setPos s.a c }
+  | .px => if h : 0 < n then pure { s with a := setPos s.a (s.a.min.set 0 s.v[0]) } else pure s
+  | .vp => pure { s with v := s.a.min }
+  | .vm => pure { s with v := s.a.max }
+  | .xa => do let r ← intersection t s.a s.a; pure { s with a := r }
+  | .xe => pure { s with a := extendBox s.a s.a }
+
+/-- a statement sequence; the first fault (undefined behaviour) ends it -/
+def run (t : Ty) {n : Nat} (s : St n) : List Instr → M (St n)
+  | [] => pure s
+  | i :: is => do let s' ← step t s i; run t s' is
+
+/-- `for (p : ps) b = extend_bounding_box(b, p);` -/
+def foldPoints {n : Nat} (b : Box n) (ps : List (Vec n)) : Box n := ps.foldl extendPoint b
+
+/-- `for (b : bs) a = extend_bounding_box(a, b);` -/
+def foldBoxes {n : Nat} (a : Box n) (bs : List (Box n)) : Box n := bs.foldl extendBox a
+
+/-- `for (b : bs) a = intersection(a, b);` -/
+def foldIntersection (t : Ty) {n : Nat} (a : Box n) : List (Box n) → M (Box n)
+  | [] => pure a
+  | b :: bs => do let r ← intersection t a b; foldIntersection t r bs
 
 end Fcppt.C13
